@@ -57,3 +57,56 @@ Lemma two_readings_differ :
   exists ps e, struct_excluded mpat mentry e_dir m_on_path m_on_name m_name_fallback ps e
                <> plain_excluded mpat mentry m_on_path ps e.
 Proof. exists w_pats, w_file. vm_compute. discriminate. Qed.
+
+(* the project root (the empty normalised path) has no name inside the project: no pattern that names at
+   least one component excludes it, under either reading (D121: before fix b1a9be7 the structure-aware
+   scanner matched the NAME OF THE PROJECT DIRECTORY ITSELF under the absolute spelling of the root) *)
+Definition names_something (p : mpat) : bool :=
+  match p with PUnder ds => negb (list_eqb ds []) | PLit cs => negb (list_eqb cs []) end.
+Definition root_entry : mentry := {| e_path := []; e_dir := true |}.
+
+Lemma last_name_cons : forall d ds, exists x, last_name (d :: ds) = [x].
+Proof.
+  intros d ds. unfold last_name. destruct (rev (d :: ds)) as [|x r] eqn:E.
+  - apply (f_equal (@length N)) in E. rewrite rev_length in E. discriminate E.
+  - exists x. reflexivity.
+Qed.
+
+Lemma root_pattern_verdicts : forall p, names_something p = true ->
+  m_on_path p root_entry = false /\ m_on_name p root_entry = false /\ m_name_fallback p root_entry = false.
+Proof.
+  intros [ds|cs] H.
+  - destruct ds as [|d ds']; [discriminate H|].
+    split; [reflexivity|]. split; [reflexivity|].
+    unfold m_name_fallback, root_entry. cbn [e_path].
+    destruct (last_name_cons d ds') as (x & Hx). rewrite Hx. reflexivity.
+  - destruct cs as [|c cs']; [discriminate H|]. repeat split; reflexivity.
+Qed.
+
+Lemma existsb_false_on_named : forall (f : mpat -> bool),
+  (forall p, names_something p = true -> f p = false) ->
+  forall ps, forallb names_something ps = true -> existsb f ps = false.
+Proof.
+  intros f Hf ps. induction ps as [|p ps IH]; intro H; [reflexivity|].
+  cbn [forallb] in H. apply andb_true_iff in H as [Hp Hps].
+  cbn [existsb]. rewrite (Hf p Hp), (IH Hps). reflexivity.
+Qed.
+
+Lemma root_never_excluded : forall ps, forallb names_something ps = true ->
+  struct_excluded mpat mentry e_dir m_on_path m_on_name m_name_fallback ps root_entry = false /\
+  plain_excluded mpat mentry m_on_path ps root_entry = false.
+Proof.
+  intros ps H. unfold struct_excluded, plain_excluded.
+  rewrite (existsb_false_on_named (fun p => m_on_name p root_entry || m_on_path p root_entry)); [|
+    intros p Hp; destruct (root_pattern_verdicts p Hp) as (P & Nm & _); rewrite P, Nm; reflexivity | exact H].
+  rewrite (existsb_false_on_named (fun p => m_name_fallback p root_entry)); [|
+    intros p Hp; destruct (root_pattern_verdicts p Hp) as (_ & _ & F); exact F | exact H].
+  rewrite (existsb_false_on_named (fun p => m_on_path p root_entry)); [|
+    intros p Hp; destruct (root_pattern_verdicts p Hp) as (P & _ & _); exact P | exact H].
+  split; [apply andb_false_r|reflexivity].
+Qed.
+
+Example root_not_excluded_by_its_own_name :
+  (* patterns build/** and build, the project directory is called build: the root is still scanned *)
+  struct_excluded mpat mentry e_dir m_on_path m_on_name m_name_fallback [PUnder [2]%N; PLit [2]%N] root_entry = false.
+Proof. reflexivity. Qed.
